@@ -39,7 +39,7 @@ def TIMEOUT(tier):
     return 900 if tier == "quick" else 5400
 
 
-COMPONENTS = ["orch", "state", "trigger", "cds", "broker", "waitpurge"]
+COMPONENTS = ["orch", "state", "trigger", "cds", "broker", "waitpurge", "trigdefs"]
 
 
 def gen_cases(tier, seed):
@@ -124,6 +124,20 @@ def gen_op(rng, P: Pair, comp):
             except Exception:
                 pass
         return ("status", i, rng.choice(STATUSES), run)
+    if comp == "trigdefs":
+        # trigger definitions: several tasks' triggers on shared conditions, registered, re-registered, cleaned, listed
+        r = rng.random()
+        if r < 0.2:
+            return ("t_reg_cond", rng.choice(["ev_a", "ev_b"]))
+        if r < 0.5:
+            return ("t_reg_trigger", rng.choice(["ev_a", "ev_b"]), rng.randrange(3), "x")
+        if r < 0.65:
+            return ("t_clean", rng.randrange(3))
+        if r < 0.9:
+            return ("t_get_triggers", rng.choice(["ev_a", "ev_b"]))
+        if r < 0.95:
+            return ("t_get_cond", rng.choice(["ev_a", "ev_b", "nope"]))
+        return ("t_purge",)
     if comp == "waitpurge":
         r = rng.random()
         if n < 6 and (r < 0.12 or n < 2):
@@ -253,6 +267,8 @@ def gen_op(rng, P: Pair, comp):
             return ("t_reg_trigger", rng.choice(["ev_a", "ev_b"]), rng.randrange(3), rng.choice(["tr1", "tr2"]))
         if r < 0.93:
             return ("t_get_triggers", rng.choice(["ev_a", "ev_b"]))
+        if r < 0.932:
+            return ("t_clean", rng.randrange(3))
         if r < 0.935:
             return ("t_purge",)
         if r < 0.96:
@@ -381,6 +397,9 @@ def apply(P: Pair, k, op):
             return tr.register_trigger(TriggerDefinitionDTO(trigger_id=f"tr_{op[1]}_{op[2]}",  # ids are content-derived in pynenc: same id => same content
                  task_id=P.tasks[k][op[2]].task_id, condition_ids=[cond.condition_id], logic=CompositeLogic.AND, argument_provider_json=None))
         return call(go)
+    if name == "t_clean":
+        # what re-registering a task's triggers does first: drop that task's trigger definitions (other tasks on the same condition keep theirs)
+        return call(lambda: tr.clean_task_trigger_definitions(P.tasks[k][op[1]].task_id))
     if name == "t_get_triggers":
         def go():
             from pynenc.trigger.conditions.event import EventCondition
@@ -638,7 +657,7 @@ def run_sequence(P, ops_iter, V, hooks, clock):
                           "witness": {"op": list(map(repr, op)), "got": repr(got)[:400], "model": repr(want)[:400], "trail": [list(map(repr, t)) for t in trail[-12:]]}})
                 return trail, kinds_changed, False
         if res["mem"][0] == "ok" and op[0] in ("reg", "status", "retry_inc", "heartbeat", "auto_purge", "wait", "b_route", "b_retrieve", "s_set_result", "s_set_exc", "s_wf_set",
-                                                 "s_sub_store", "t_record", "t_clear", "t_claim_run", "t_cron_store", "c_store", "c_purge", "b_purge", "o_purge", "s_purge", "t_purge", "t_reg_trigger", "c_resolve", "t_reg_cond", "t_claim_exec"):
+                                                 "s_sub_store", "t_record", "t_clear", "t_claim_run", "t_cron_store", "c_store", "c_purge", "b_purge", "o_purge", "s_purge", "t_purge", "t_reg_trigger", "t_clean", "c_resolve", "t_reg_cond", "t_claim_exec"):
             kinds_changed.add(op[0])
         ro = {k: ("ok", readout(P, k)) for k in ("mem", "sqlite")}
         hooks["readouts_compared"] += 1
